@@ -48,6 +48,15 @@ static std::string g_kinds; // kinds touched by the run, for evidence histograms
 static std::string g_shape; // history shape signature
 
 struct SymFailure { size_t call; std::string what; std::string report; };
+// a child's stderr from the first line of the sanitizer report on (library chatter before it is dropped)
+static std::string report_of(const std::string &err) {
+  static const char *marks[] = {"ERROR: AddressSanitizer", "runtime error: ", "Assertion `", "terminate called"};
+  size_t at = std::string::npos;
+  for (const char *m : marks) { size_t p = err.find(m); if (p < at) at = p; }
+  if (at == std::string::npos) return err.substr(0, 3000);
+  size_t ls = err.rfind('\n', at); ls = (ls == std::string::npos) ? 0 : ls + 1;
+  return err.substr(ls, 3000);
+}
 static std::vector<SymFailure> g_sym;   // symmetric failures (isolated reference calls that did not survive)
 static uint64_t g_mask_hash = FNV_INIT; // which reference calls were excluded: universes are only comparable when equal
 
@@ -173,12 +182,12 @@ static Probe probe_script(StringDictionary *d, const std::vector<Call> &script, 
       return pr;
     }
     if (inflight < 0) { // died outside a call (iterator teardown): give up on this script
-      SymFailure f; f.call = script.size(); f.what = ctx + " teardown"; f.report = err.substr(0, 3000); g_sym.push_back(f);
+      SymFailure f; f.call = script.size(); f.what = ctx + " teardown"; f.report = report_of(err); g_sym.push_back(f);
       pr.skip.assign(script.size(), 1); pr.run = run; return pr;
     }
     SymFailure f; f.call = (size_t)inflight; f.what = ctx + " " + call_str(script[(size_t)inflight]);
     if (WIFSIGNALED(status) && WTERMSIG(status) == SIGVTALRM) f.report = "HANG (1.5 s of CPU time in one isolated reference call)";
-    else f.report = err.substr(0, 3000);
+    else f.report = report_of(err);
     g_sym.push_back(f);
     pr.skip[(size_t)inflight] = 1;
     resume = (size_t)inflight + 1;
@@ -208,7 +217,7 @@ static bool probe_save(StringDictionary *d, const std::string &ctx) {
   close(ep[0]);
   int status = 0; waitpid(pid, &status, 0);
   if (WIFEXITED(status) && WEXITSTATUS(status) == 0) return true;
-  SymFailure f; f.call = 0; f.what = ctx + " save()"; f.report = err.substr(0, 3000); g_sym.push_back(f);
+  SymFailure f; f.call = 0; f.what = ctx + " save()"; f.report = report_of(err); g_sym.push_back(f);
   return false;
 }
 
